@@ -110,9 +110,6 @@ Proof.
   - rewrite (scope_modifier_reads default ts m M) in H. inversion H; subst. exists m. auto.
   - destruct (scope_modifier_rejects default ts M) as [e E]. rewrite E in H. discriminate.
 Qed.
-Print Assumptions scope_modifier_reads.
-Print Assumptions scope_modifier_rejects.
-Print Assumptions scope_modifier_inv.
 
 (* ====================================================================================================================== *)
 (* PART 2 - the five top-level statements record the flag of the modifier, or their documented default                    *)
@@ -254,11 +251,6 @@ Proof.
   eexists _, _, _, _. split; [reflexivity|]. eapply declares_intro; eassumption.
 Qed.
 End TOPLEVEL.
-Print Assumptions script_scope_as_written.
-Print Assumptions text_scope_as_written.
-Print Assumptions movement_scope_as_written.
-Print Assumptions mart_scope_as_written.
-Print Assumptions mapscripts_scope_as_written.
 
 (* the same three facts, statement kind by statement kind, in the words of the property *)
 Section SUMMARY.
@@ -314,10 +306,6 @@ Proof.
   intros R. destruct (declares_cases _ _ _ _ (recorded_declares _ _ _ _ R)) as [(A & _)|[(A & B & C & _)|(A & B & C & _)]]; auto.
 Qed.
 End SUMMARY.
-Print Assumptions documented_defaults.
-Print Assumptions global_modifier_is_recorded.
-Print Assumptions local_modifier_is_recorded.
-Print Assumptions modifier_trichotomy.
 
 (* ====================================================================================================================== *)
 (* PART 3 - label statements inside scripts: local unless marked (global)                                                 *)
@@ -364,9 +352,6 @@ Proof.
 Qed.
 Theorem try_label_none ts : try_label ts = None -> forall g, ~ label_written ts g.
 Proof. intros H g W. rewrite (try_label_reads ts g W) in H. discriminate. Qed.
-Print Assumptions try_label_reads.
-Print Assumptions try_label_inv.
-Print Assumptions try_label_none.
 
 (* ---------- all the label statements of a body, at every depth, with their flag and token ---------- *)
 Definition lab := (text * bool * token)%type.
@@ -646,9 +631,6 @@ Proof.
   pose proof (I _ _ _ _ _ _ _ _ _ _ base H A (ALL_nil _)) as F. unfold ALL in F. rewrite Forall_forall in F. exact (F _ Hin).
 Qed.
 End INSIDE.
-Print Assumptions label_statement_scope.
-Print Assumptions identifier_statement_scope.
-Print Assumptions block_labels_as_written.
 
 (* ====================================================================================================================== *)
 (* PART 4 - whole programs: every top-level name and every label of the parsed program carries the scope that is written *)
@@ -712,7 +694,6 @@ Proof.
   destruct (add_texts_local _ _ _ _ _ E1 FT) as [T1 M1]. rewrite <- M1 in FM.
   destruct (add_movs_local _ _ _ _ _ H FM) as [M2 T2]. rewrite T2. auto.
 Qed.
-Print Assumptions hoisted_are_local.
 
 (* [declared base kw name g]: the stream [base] contains a top-level statement with keyword kw that declares name with flag g *)
 Definition declared (base : toks) (kw : toktype) (name : text) (g : bool) : Prop :=
@@ -911,7 +892,6 @@ Proof.
     + eapply Forall_impl; [|exact I2]. intros x Hx. left. exact Hx.
 Qed.
 End PROGRAM.
-Print Assumptions program_scopes_as_written.
 
 (* ====================================================================================================================== *)
 (* PART 5 - the emitter: the label line of every statement carries the recorded flag; invented labels are local            *)
@@ -959,11 +939,6 @@ Proof. eexists; reflexivity. Qed.
 Theorem raw_label_lines v line : labels_of (emit_raw mp v line) = [].
 Proof. apply labels_raw. Qed.
 End EMIT1.
-Print Assumptions label_statement_rendered.
-Print Assumptions text_label_line.
-Print Assumptions movement_label_line.
-Print Assumptions mart_label_line.
-Print Assumptions raw_label_lines.
 
 (* ---------- scripts ---------- *)
 Lemma flat_map_split {A B} (f g : A -> list B) l :
@@ -1109,7 +1084,6 @@ Proof.
   rewrite <- (Mrem_simple _ S). apply Permutation_map. etransitivity; [exact P|].
   unfold WorkLabels.MW, WorkLabels.Mrem. cbn. rewrite !app_nil_r. reflexivity.
 Qed.
-Print Assumptions graph_conserves_labels.
 Local Opaque order_of emit_graph.
 
 (* THE SCRIPT THEOREM.  The label lines of the code of a script (a script statement, or an inline script of mapscripts) are
@@ -1129,7 +1103,6 @@ Proof.
   exists subs. split; [exact N0|]. etransitivity; [exact P|]. unfold script_labels.
   apply perm_skip. apply Permutation_app_head. apply graph_conserves_labels; assumption.
 Qed.
-Print Assumptions script_label_lines.
 
 (* the code of a script begins with the script's own label line *)
 Local Transparent order_of.
@@ -1156,7 +1129,6 @@ Proof.
   destruct (render_bodies mp tl name (finals w) _ post) as [[rest regs']| | | |]; try discriminate.
   injection H as <-. cbn [flat_map]. eexists; reflexivity.
 Qed.
-Print Assumptions script_code_starts_with_own_label.
 
 (* consequences, in the form of the property text *)
 Lemma labels_of_In is n g : In (n, g) (labels_of is) <-> In (ILabel n g) is.
@@ -1190,9 +1162,6 @@ Proof.
   - apply in_map_iff in Hin. destruct Hin as (i & E & Hi). inversion E; subst. right. left. exists i. split; [intros ->; contradiction|auto].
   - apply in_map_iff in Hin. destruct Hin as ([[n' g'] tk] & E & Hx). inversion E; subst. right. right. eauto.
 Qed.
-Print Assumptions script_own_label.
-Print Assumptions script_author_labels.
-Print Assumptions script_labels_classified.
 
 (* ---------- what must and what may be a label line of a script ---------- *)
 (* must: the script's own label with its flag, and every label statement of the body with its written flag *)
@@ -1399,8 +1368,6 @@ Proof.
   - inversion H as [H1]. eapply mapscripts_label_lines; eassumption.
 Qed.
 End EMIT3.
-Print Assumptions mapscripts_label_lines.
-Print Assumptions top_label_lines.
 Theorem mapscripts_code_starts_with_own_label mp tl optimize name glob plain tables is :
   emit_mapscripts mp tl optimize name glob plain tables = Emitter.Ok is -> exists rest, is = ILabel name glob :: rest.
 Proof.
@@ -1408,7 +1375,6 @@ Proof.
   destruct (emit_scripts mp tl optimize _) as [inl| | | |]; try discriminate.
   destruct (emit_tables mp tl optimize tables) as [tt| | | |]; try discriminate. injection H as <-. eexists; reflexivity.
 Qed.
-Print Assumptions mapscripts_code_starts_with_own_label.
 
 (* ---------- whole programs ---------- *)
 Lemma top_scripts_bodies tp : map Datatypes.snd (top_scripts tp) = ProgWf.bodies_of_top tp.
@@ -1492,7 +1458,6 @@ Proof.
   - intros n g Hin. apply In_label_app in Hin. destruct Hin as [Hin|Hin]; [left; apply T1; exact Hin|right; apply emit_texts_labels in Hin; exact Hin].
   - intros n g [(tp & Ht & Hm)|X]; apply In_label_app; [left; eapply T2; eassumption|right; apply emit_texts_labels; exact X].
 Qed.
-Print Assumptions program_label_lines.
 
 (* ====================================================================================================================== *)
 (* PART 6 - printing: '::' iff the flag is true                                                                           *)
@@ -1514,10 +1479,6 @@ Proof.
   intros H. destruct (in_split _ _ H) as (l1 & l2 & ->). unfold print_instrs. rewrite flat_map_app. cbn [flat_map].
   eexists _, _. reflexivity.
 Qed.
-Print Assumptions label_line_printed.
-Print Assumptions exported_iff_double_colon.
-Print Assumptions local_iff_single_colon.
-Print Assumptions label_lines_in_output.
 
 (* ====================================================================================================================== *)
 (* PART 7 - source to code                                                                                                *)
@@ -1646,9 +1607,6 @@ Proof.
   - intros x Hx. apply MUST. right. eauto.
 Qed.
 End END_TO_END.
-Print Assumptions label_lines_as_written.
-Print Assumptions exported_labels_are_written.
-Print Assumptions declared_labels_are_emitted.
 
 (* ---------- the compiler: Compile.compile, from the source text to the output text ---------- *)
 Theorem compile_label_scopes hl hd hs autovars switches ee fc cli_font cli_maxlen optimize mp src out :
@@ -1671,7 +1629,6 @@ Proof.
   - intros n g Hin. eapply label_lines_as_written; [apply ProgSrc.parse_format_advs|apply ProgSrc.lex_eof|exact HP|exact HE|exact Hin].
   - intros n g Hin. apply label_lines_in_output. exact Hin.
 Qed.
-Print Assumptions compile_label_scopes.
 
 (* the same without any hypothesis: the token stream is the lexer's, the format() parser is the real one *)
 Section REAL.
@@ -1718,10 +1675,6 @@ Theorem source_declared_labels_are_emitted src p optimize mp code :
   (forall x, In x (texts p) -> In (ILabel (xname x) (xglob x)) code).
 Proof. apply declared_labels_are_emitted; [apply ProgSrc.parse_format_advs|apply ProgSrc.lex_eof]. Qed.
 End REAL.
-Print Assumptions source_scopes_as_written.
-Print Assumptions source_label_lines_as_written.
-Print Assumptions source_exported_labels_are_written.
-Print Assumptions source_declared_labels_are_emitted.
 
 (* ====================================================================================================================== *)
 (* EXAMPLES - the hypotheses of the theorems are satisfiable, on concrete sources run through the model's lexer           *)
